@@ -11,9 +11,13 @@ import time
 
 VERIF = os.path.dirname(os.path.dirname(os.path.abspath(__file__)))
 LEAN = os.path.join(VERIF, "lean")
-HARNESS = os.path.join(VERIF, "harness")
-WORK = os.path.join(VERIF, "work")
-EVID = os.path.join(VERIF, "evidence")
+# Development only (tools/pareval.py evaluates many seeded/harmless changes at once, each in its own copy of the
+# crate): VERIF_REPO, VERIF_HARNESS_DIR and VERIF_WORK_DIR relocate the crate, the harness crate and the scratch
+# directory (evidence then goes to the scratch directory too).  The registered checks never set them.
+REPO = os.environ.get("VERIF_REPO", "/repo")
+HARNESS = os.environ.get("VERIF_HARNESS_DIR", os.path.join(VERIF, "harness"))
+WORK = os.environ.get("VERIF_WORK_DIR", os.path.join(VERIF, "work"))
+EVID = os.path.join(VERIF, "evidence") if "VERIF_WORK_DIR" not in os.environ else os.path.join(WORK, "evidence")
 REPLAYS = os.path.join(WORK, "replays")
 DRIVER = os.path.join(LEAN, ".lake", "build", "bin", "driver")
 CFGS = ["std", "alloc", "noalloc"]
@@ -160,6 +164,8 @@ COV = os.environ.get("VERIF_COV")      # tools/coverage.sh: run the std stream t
 
 
 def harness_bin(cfg):
+    if cfg == "std0":
+        return os.path.join(HARNESS, "target", "std0", "debug", "harness")
     if COV and cfg == "std":
         return os.path.join(HARNESS, "target", "cov", "debug", "harness")
     return os.path.join(HARNESS, "target", cfg, "debug", "harness")
@@ -173,10 +179,14 @@ def harness_build(cfgs):
         lock = os.path.join(HARNESS, "Cargo.lock")
         if not os.path.exists(lock):
             import shutil
-            shutil.copy("/repo/Cargo.lock", lock)
+            shutil.copy(os.path.join(REPO, "Cargo.lock"), lock)
         procs = []
         for cfg in cfgs:
             feat = [] if cfg == "noalloc" else ["--features", cfg]
+            if cfg == "std0":
+                # the std build without optimisation (opt-level 0, what `cargo build`/`cargo test` produce by default):
+                # recursion is not turned into loops, so depth that grows with the input shows as a stack overflow
+                feat = ["--features", "std", "--config", "profile.dev.opt-level=0"]
             cmd = ["cargo", "build", "--offline", "--quiet"] + feat + ["--target-dir", os.path.join("target", cfg)]
             procs.append((cfg, subprocess.Popen(cmd, cwd=HARNESS, env=ENV, stdout=subprocess.PIPE, stderr=subprocess.STDOUT)))
         for cfg, p in procs:
@@ -192,16 +202,16 @@ CLI_TARGET = os.path.join(WORK, "cli-target")
 
 def cli_build():
     with Lock("cargo-cli"):
-        rc, out = run(["cargo", "build", "--offline", "--quiet", "--manifest-path", "/repo/Cargo.toml",
+        rc, out = run(["cargo", "build", "--offline", "--quiet", "--manifest-path", os.path.join(REPO, "Cargo.toml"),
                        "--target-dir", CLI_TARGET, "--bin", "aisparser"], timeout=1800)
     return rc == 0, out, os.path.join(CLI_TARGET, "debug", "aisparser")
 
 
 # ---------------------------------------------------------------- op streams
 
-def run_stream(binary, args, ops, timeout=1800):
+def run_stream(binary, args, ops, timeout=1800, extra_env=None):
     data = ("\n".join(ops) + "\n").encode()
-    env = ENV
+    env = ENV if not extra_env else dict(ENV, **extra_env)
     if COV:
         env = dict(ENV, LLVM_PROFILE_FILE=os.path.join(WORK, "cov", "prof-%p-%m.profraw"))
     p = subprocess.run([binary] + args, input=data, stdout=subprocess.PIPE, stderr=subprocess.PIPE, env=env,
@@ -221,14 +231,114 @@ def strip_meta(lines):
     return [_META.sub("", l) if "type_name=" in l else l for l in lines]
 
 
+STATE_RECONCILED = {"lines": 0, "probed": 0, "observable": 0}
+_MODEL_CACHE = {}
+
+
+def _st(ans):
+    return ans.rsplit(" st=", 1)[1] if " st=" in ans else None
+
+
+def _nost(ans):
+    return ans.rsplit(" st=", 1)[0]
+
+
+def _probe_lines(st_a, st_m):
+    """Lines that make the three private fields of the reassembly state visible in an answer: fragments numbered
+    around the stored number, with the stored id and others, each closing its group (so an accepted one delivers
+    the buffered payload), plus openers, unfragmented and oddly numbered sentences."""
+    from . import ais
+    ids, ks = [None, 0, 1, 7], [1, 2, 3, 255]
+    for st in (st_a, st_m):
+        if not st or st == "?":
+            continue
+        parts = st.split(",")
+        if len(parts) >= 2:
+            if parts[0].isdigit():
+                ids += [int(parts[0]), (int(parts[0]) + 1) % 256]
+            if parts[1].isdigit():
+                f = int(parts[1])
+                ks += [x for x in (f - 1, f, f + 1, f + 2) if 1 <= x <= 255]
+    out = []
+    for k in sorted(set(ks)):
+        for mid in sorted(set(ids), key=lambda x: -1 if x is None else x):
+            out.append(ais.sentence(b"w", nf=max(k, 1), fn=k, mid=mid, fill=0))
+    out += [ais.sentence(b"w", nf=0, fn=1, fill=0), ais.sentence(b"w", nf=1, fn=0, fill=0), ais.sentence(b"w", nf=0, fn=0, fill=0),
+            ais.sentence(b"w", nf=2, fn=1, mid=None, fill=0), ais.sentence(b"w", nf=9, fn=5, mid=1, fill=0)]
+    return out
+
+
+def reconcile_states(cfg, ops, lines):
+    """The parser's state is private; the harness reads it from `{:?}`.  Where it differs from the model's state (or
+    cannot be read) while the answers themselves agree, probe lines decide whether the difference is observable:
+    if no continuation of the history answers differently in implementation and model, the difference is one of
+    representation and the implementation's `st=` is replaced by the model's; otherwise everything is left as it is
+    (and the judges report it)."""
+    if not any(o.startswith("L ") for o in ops):
+        return lines
+    mism = []
+    model = None
+    for i, (o, a) in enumerate(zip(ops, lines)):
+        if not o.startswith("L ") or " st=" not in a:
+            continue
+        if model is None:
+            model = run_model(cfg, ops)
+        m = model[i]
+        if " st=" in m and _st(a) != _st(m) and _nost(_META.sub("", a)) == _nost(m):
+            mism.append(i)
+    if not mism:
+        return lines
+    binary = harness_bin(cfg)
+    observable = False
+    for i in mism[:40]:
+        slot = ops[i].split(" ")[1]
+        j = i
+        while j > 0 and ops[j] != f"N {slot}":
+            j -= 1
+        hist = [o for o in ops[j:i + 1] if o == f"N {slot}" or (o.startswith("L ") and o.split(" ")[1] == slot)]
+        if not hist or hist[0] != f"N {slot}":
+            hist = [f"N {slot}"] + hist
+        if len(hist) > 700:
+            continue
+        stream, marks = [], []
+        for pl in _probe_lines(_st(lines[i]), _st(model[i])):
+            stream += hist
+            stream.append(f"L {slot} 0 o {hexs(pl)}")
+            marks.append(len(stream) - 1)
+        rc, ia = run_stream(binary, [], stream, extra_env={"VERIF_FLUSH": "1"})
+        ia += ["abort"] * (len(stream) - len(ia))
+        ma = run_model(cfg, stream)
+        STATE_RECONCILED["probed"] += 1
+        for k in marks:
+            x = ia[k]
+            if x.startswith("ctor-mismatch "):
+                x = x[len("ctor-mismatch "):].partition(" ||| ")[0]
+            if _nost(_META.sub("", x)) != _nost(ma[k]):
+                observable = True
+                break
+        if observable:
+            STATE_RECONCILED["observable"] += 1
+            break
+    if observable:
+        return lines
+    for i in mism:
+        lines[i] = _nost(lines[i]) + " st=" + _st(model[i])
+        STATE_RECONCILED["lines"] += 1
+    return lines
+
+
 CTOR_MISMATCH = []     # (cfg, ops up to and including the line, answer of the new() parser, answer of the default() parser)
 
 
-def run_impl(cfg, ops, keep_meta=False):
+def run_impl(cfg, ops, keep_meta=False, reconcile=True):
     """Implementation answers; if the process dies (abort, stack overflow) the missing answers are 'abort'."""
     rc, lines = run_stream(harness_bin(cfg), [], ops)
     if len(lines) < len(ops):
-        lines += ["abort"] * (len(ops) - len(lines))
+        # the process died (abort, stack overflow, kill): answers still in its output buffer are lost, so run once
+        # more with a flush after every answer - the first missing answer is then the operation that killed it
+        rc, lines = run_stream(harness_bin(cfg), [], ops, extra_env={"VERIF_FLUSH": "1"})
+        if len(lines) < len(ops):
+            lines += ["abort"] * (len(ops) - len(lines))
     for i, l in enumerate(lines):
         # the harness feeds every line to a parser built with AisParser::new() and to one built with Default::default()
         if l.startswith("ctor-mismatch "):
@@ -239,13 +349,23 @@ def run_impl(cfg, ops, keep_meta=False):
                     j -= 1
                 CTOR_MISMATCH.append((cfg, ops[max(j, i - 400):i + 1], a1, a2))
             lines[i] = a1
+    if cfg != "std0" and reconcile:
+        lines = reconcile_states(cfg, ops, lines)
     return lines if keep_meta else strip_meta(lines)
 
 
 def run_model(cfg, ops, keep_meta=False):
-    rc, lines = run_stream(DRIVER, [cfg], ops)
-    if len(lines) < len(ops):
-        lines += ["model-abort"] * (len(ops) - len(lines))
+    mcfg = "std" if cfg == "std0" else cfg
+    key = (mcfg, len(ops), hash("\n".join(ops)))
+    if key in _MODEL_CACHE:
+        lines = list(_MODEL_CACHE[key])
+    else:
+        rc, lines = run_stream(DRIVER, [mcfg], ops)
+        if len(lines) < len(ops):
+            lines += ["model-abort"] * (len(ops) - len(lines))
+        if len(_MODEL_CACHE) > 64:
+            _MODEL_CACHE.clear()
+        _MODEL_CACHE[key] = list(lines)
     return lines if keep_meta else strip_meta(lines)
 
 
@@ -372,6 +492,7 @@ class Report:
             "input_distribution": self.dist,
             "correspondence_projections": self.corr_names,
             "known_findings_reported": sorted(set(self.known)),
+            "private_state_reconciled": dict(STATE_RECONCILED),
             "exhaustive": exhaustive,
         }
         cov.update(self.extra)
